@@ -158,6 +158,10 @@ def run(out):
                          ('d', 'name', 'attrs'), 'copies (node tree of abbreviation.parse)', tree_only=True)
     grammar.differential(out, 'grammar-large-product', dict(NameFr={"x"}, ModFr=set(), RepFr={"*40", "*30"}, OpFr={">"}, MaxGroups=0, MaxMods=0, MaxFrag=5),
                          ('d', 'name'), 'copies (node tree of abbreviation.parse)', tree_only=True)
+    # a padded counter in a class / id / name directly in front of the element's text
+    grammar.differential(out, 'grammar-numbering-before-text', dict(NameFr={"x", "li$$"}, ModFr={".c$$", "#i$$$", "{T $}", "{${1:p} $$}", "[n=$$]"}, RepFr={"*3"},
+                                                                   OpFr={">", "+"}, MaxGroups=0, MaxMods=2, MaxFrag=3 if quick else 4),
+                         ('d', 'name', 'text', 'attrs'), 'numbering (node tree of abbreviation.parse)')
     for limit in ((None, 3, 1) if quick else (None, 1, 2, 3, 5)):
         grammar.differential(out, 'grammar-numbering-maxRepeat-%s' % limit, dict(gq, MaxFrag=5 if quick else 6), ('d', 'name', 'text', 'attrs'),
                              'numbering (node tree of abbreviation.parse)', limit=limit)
